@@ -1,7 +1,7 @@
 from vlib.core import *
 
 META = dict(
-    level_text="Exact arithmetic (any linearly ordered field, all sizes, Mathlib Matrix): the code's flag test |y_last|*||f|| < tol*max(eps^(2/3),|theta|) together with the Krylov relation A V = V H + f e' and H y = theta y bounds the true residual ||A(Vy) - theta(Vy)|| by tol*max(eps^(2/3),|theta|) (c01_residual, squared norms; c01_residual_real with Real.sqrt; c01_residual_norm for any absolutely homogeneous norm, i.e. complex Hermitian / B-norm); V^H V = I and Y^H Y = I give (VY)^H (VY) = I and ||Vy|| = ||y|| (c01_unit_orth, c01_unit_orth_real); shift mode: lambda = sigma + 1/nu, A x - lambda x = -(1/nu)(A - sigma I)(Op x - nu x), hence ||A x - lambda x|| < C*tol*max(eps23,|nu|)/|nu| (= C*tol when |nu| >= eps23) for every bound C of ||A - sigma I|| (c01_shift). On the orchestration model shared with C05 (every kernel behaviour, every prior state): the flags handed back are the convergence test evaluated on the Ritz pairs of the FINAL factorization, permuted together with the vectors (c01_flags_paired, from c05_flags_fresh; false before fix c774a83). For EVERY finite history of init()/compute() calls (no 'preceded by init()' restriction since fix f70c7d9) and a final compute() that returns - Successful or NotConverging -, every pair handed back satisfies the residual bound in exact arithmetic, under the explicit kernel specifications ExactKernels (each factorization kernel is a sequence of C07 steps, composed with C07's run theorem; small eigen-solver returns eigenpairs of H with estimate = last coordinate; flag test and x = V y as coded): c01_invariant_histories, c01_histories, c01_histories_sym, c01_histories_shift; ExactKernels is shown satisfiable and the theorem is run on an instance. The SAME orchestration definitions instantiated with the executable Lanczos / TridiagQR / TridiagEigen models are run at Float against the real SymEigsSolver and SymEigsShiftSolver on histories built for this property (return value, status, counters, eigenvalues, eigenvectors, hash of the whole factorization object: bit for bit up to the final matrix product). The property's own predicate is evaluated in __float128 on the real classes incl. HermEigsSolver and float / long double instantiations. Not proved: rounding (the '+ rounding-level multiple of ||A||' term), and that the executable kernels satisfy ExactKernels as a whole.",
+    level_text="Exact arithmetic (any linearly ordered field, all sizes, Mathlib Matrix): the code's flag test |y_last|*||f|| < tol*max(eps^(2/3),|theta|) together with the Krylov relation A V = V H + f e' and H y = theta y bounds the true residual ||A(Vy) - theta(Vy)|| by tol*max(eps^(2/3),|theta|) (c01_residual, squared norms; c01_residual_real with Real.sqrt; c01_residual_norm for any absolutely homogeneous norm, i.e. complex Hermitian / B-norm); V^H V = I and Y^H Y = I give (VY)^H (VY) = I and ||Vy|| = ||y|| (c01_unit_orth, c01_unit_orth_real); shift mode: lambda = sigma + 1/nu, A x - lambda x = -(1/nu)(A - sigma I)(Op x - nu x), hence ||A x - lambda x|| < C*tol*max(eps23,|nu|)/|nu| (= C*tol when |nu| >= eps23) for every bound C of ||A - sigma I|| (c01_shift). On the orchestration model shared with C05 (every kernel behaviour, every prior state): the flags handed back are the convergence test evaluated on the Ritz pairs of the FINAL factorization, permuted together with the vectors (c01_flags_paired, from c05_flags_fresh; false before fix c774a83). For EVERY finite history of init()/compute() calls (no 'preceded by init()' restriction since fix f70c7d9) and a final compute() that returns - Successful or NotConverging -, every pair handed back satisfies the residual bound in exact arithmetic, under the explicit kernel specifications ExactKernels (each factorization kernel is a sequence of C07 steps, composed with C07's run theorem; small eigen-solver returns eigenpairs of H with estimate = last coordinate; flag test and x = V y as coded): c01_invariant_histories, c01_histories, c01_histories_sym, c01_histories_shift; ExactKernels is shown satisfiable and the theorem is run on an instance. The SAME orchestration definitions instantiated with the executable Lanczos / TridiagQR / TridiagEigen models are run at Float against the real SymEigsSolver and SymEigsShiftSolver on histories built for this property (return value, status, counters, eigenvalues, eigenvectors, hash of the whole factorization object: bit for bit up to the final matrix product). The property's own predicate is evaluated in __float128 on the real classes incl. HermEigsSolver and float / long double instantiations. DISCHARGE for the executable kernels: ExactKernels as stated (for EVERY object / every factorize a b / every restartFac k) is not satisfiable by the numeric kernels, so it is relativised to an invariant the kernels preserve as compute()/init() call them (ExactKernelsOn; c01_histories_on, c01_histories_orth_on) and that is PROVED for HermSolver.hermKern (Arnoldi.init, Lanczos.factorize_from, restartFac = TridiagQR shift loop + compress_H/compress_V + factorize_from, eigH = TridiagEigen, convTest, assemble, sort wrappers, nev_adjusted) at the exact instance scOfField F: c01_hermKern_kernels, c01_histories_hermKern (eig_spec as hypothesis) and c01_histories_hermKern_full (NO kernel-specification hypothesis: eig_spec from C09's whole-run similarity of TridiagEigen, restart from C08's TridiagQR theorems, factorization loop from the model-level C07 run theorems), c01_invariant_hermKern (Krylov relation, V'V = I, V'f = 0, beta = ||f|| after every history on every path), c01_histories_orth_hermKern (orthonormal returned vectors; index-vector injectivity SortInj still a hypothesis). Hypotheses of the _full theorem: exact sqrt, ideal rotations (series cutoff <= 0), Sc.eps = 0 (TridiagQR deflation drops only exact zeros), 0 < min(), M symmetric, 1 <= nev < ncv, and two RUN-LEVEL hypotheses on a user-chosen closed set G of factorization states: Reg (no breakdown: beta >= near_0 and beta != 0 at every Lanczos pass, ||A v0|| != 0 and no f := 0 shortcut in init) and ZeroDrop (TridiagEigen's perturbation budget is 0 on full states). Consistency of the hypotheses is shown on a degenerate witness only (operator on R^0). Not proved: rounding (the '+ rounding-level multiple of ||A||' term); the breakdown/expand_basis branch and non-zero discards (explicit error terms); injectivity of the argsort index vectors for the orthonormality clause.",
     note="Lean kernel + propext/Classical.choice/Quot.sound; Mathlib Data.Matrix.Mul, LinearAlgebra.Matrix.ConjTranspose, Analysis.Real.Sqrt, Algebra.BigOperators.Fin; the solver model is Model/HermSolver.lean (driver C05); std::sort of the restart shifts modelled as stable insertion sort (exact up to 16 shifts: correspondence cases keep ncv - nev <= 16); the final V*Y product is compared under the soft rule of compare_segments; oracle constants C1 = 1.01, C2 = 100, C3 = 100 (harness/c01.cpp header)",
     technique="Lean 4 proof (Mathlib matrix algebra; invariants over the restart loop and over histories of a state machine generic in the kernels; composition with C07's step-sequence theorem) + bit-exact differential correspondence of the executable solver model + __float128 oracle on the implementation",
     design="§5 C01", harnesses=['c01'])
